@@ -6,7 +6,12 @@ package health
 // (extractTarWithFallback, gzip or plain tar) before sending it on. Same statement, same oracle as the
 // filetransfer half: whatever the archive contains, nothing outside the destination directory is
 // created, modified, linked or deleted. All archives of up to 3 entries over a small alphabet of
-// types, names and link targets (plain tar and gzip), effect-based snapshot oracle.
+// types, names and link targets (plain tar and gzip), effect-based snapshot oracle (the snapshot
+// lists every object outside the destination, empty directories included).
+// Plus the "missing parents" family: entries (file, dir, hard link, symlink) whose name has one or
+// two missing intermediate directories below every place where an earlier entry can have put a
+// link, after every single entry and after every pair (top-level symlink, dir|symlink): creating
+// those parents through a link that leads outside leaves new directories outside the destination.
 
 import (
 	"archive/tar"
@@ -15,15 +20,18 @@ import (
 	"fmt"
 	"os"
 	"path/filepath"
+	"runtime"
 	"sort"
 	"strings"
+	"sync"
+	"sync/atomic"
 	"testing"
 
 	"github.com/postalsys/muti-metroo/internal/vmc"
 )
 
 type c27hEntry struct {
-	Type   string `json:"type"` // dir | file | symlink
+	Type   string `json:"type"` // dir | file | symlink | hardlink
 	Name   string `json:"name"`
 	Target string `json:"target,omitempty"`
 }
@@ -53,6 +61,8 @@ func c27hArchive(c c27hCase) []byte {
 			w.Write(body)
 		case "symlink":
 			w.WriteHeader(&tar.Header{Typeflag: tar.TypeSymlink, Name: e.Name, Linkname: e.Target, Mode: 0o777})
+		case "hardlink":
+			w.WriteHeader(&tar.Header{Typeflag: tar.TypeLink, Name: e.Name, Linkname: e.Target, Mode: 0o644})
 		}
 	}
 	w.Close()
@@ -88,10 +98,20 @@ func c27hSnapshot(root, skip string) string {
 	return strings.Join(out, "\n")
 }
 
-func c27hRun(r *vmc.Result, c c27hCase) {
+type c27hRes struct {
+	herr      string
+	panicked  string
+	before    string
+	after     string
+	extracted bool
+}
+
+// c27hExec builds a private scratch tree, extracts the archive with the real code and snapshots
+// everything outside the destination before and after. Safe to run concurrently.
+func c27hExec(c c27hCase) (res c27hRes) {
 	root, err := os.MkdirTemp("", "c27h")
 	if err != nil {
-		r.HarnessError("mkdtemp: %v", err)
+		res.herr = "mkdtemp: " + err.Error()
 		return
 	}
 	defer os.RemoveAll(root)
@@ -101,25 +121,51 @@ func c27hRun(r *vmc.Result, c c27hCase) {
 	os.MkdirAll(filepath.Join(root, "outside"), 0o755)
 	os.WriteFile(filepath.Join(root, "outside", "secret"), []byte("SECRET"), 0o600)
 	os.WriteFile(filepath.Join(root, "work", "sibling"), []byte("SIBLING"), 0o600)
-	before := c27hSnapshot(root, dest)
+	res.before = c27hSnapshot(root, dest)
 	func() {
 		defer func() {
 			if p := recover(); p != nil {
-				r.Violate("C27/health/panic", fmt.Sprintf("extractTarWithFallback panicked on %+v: %v", c, p), c)
+				res.panicked = fmt.Sprint(p)
 			}
 		}()
 		extractTarWithFallback(bytes.NewReader(c27hArchive(c)), dest)
 	}()
-	after := c27hSnapshot(root, dest)
+	res.after = c27hSnapshot(root, dest)
+	if entries, _ := os.ReadDir(dest); len(entries) > 0 {
+		res.extracted = true
+	}
+	// the snapshots embed no absolute path (names are relative to root), so they compare across runs
+	return
+}
+
+func c27hReport(r *vmc.Result, c c27hCase, res c27hRes) {
+	if res.herr != "" {
+		r.HarnessError("%s", res.herr)
+		return
+	}
+	if res.panicked != "" {
+		r.Violate("C27/health/panic", fmt.Sprintf("extractTarWithFallback panicked on %+v: %v", c, res.panicked), c)
+	}
 	r.Add("evaluations", 1)
 	var types []string
+	deep := false
 	for _, e := range c.Entries {
 		types = append(types, e.Type)
+		if strings.Contains(e.Name, "/n/") {
+			deep = true
+		}
 	}
-	if entries, _ := os.ReadDir(dest); len(entries) > 0 {
-		r.Nontrivial("extracted|" + strings.Join(types, "+"))
+	if deep {
+		r.Add("health_missing_parent_archives", 1)
 	}
-	if before != after {
+	if res.extracted {
+		key := "extracted|" + strings.Join(types, "+")
+		if deep {
+			key += "|missing-parents"
+		}
+		r.Nontrivial(key)
+	}
+	if res.before != res.after {
 		mech := "other"
 		for _, e := range c.Entries {
 			if strings.Contains(e.Name, "upload-dir-1x") && mech == "other" {
@@ -129,7 +175,7 @@ func c27hRun(r *vmc.Result, c c27hCase) {
 				mech = "through-symlink"
 			}
 		}
-		r.Violate("C27/health/outside-changed/"+mech, fmt.Sprintf("HTTP directory upload extraction of %+v changed the file system outside the destination:\n--- before\n%s\n--- after\n%s", c.Entries, before, after), c)
+		r.Violate("C27/health/outside-changed/"+mech, fmt.Sprintf("HTTP directory upload extraction of %+v changed the file system outside the destination:\n--- before\n%s\n--- after\n%s", c.Entries, res.before, res.after), c)
 	}
 }
 
@@ -138,7 +184,7 @@ func TestVerif_C27_Health(t *testing.T) {
 	var rp c27hCase
 	if r.ReplayInto(&rp) {
 		if len(rp.Entries) > 0 {
-			c27hRun(r, rp)
+			c27hReport(r, rp, c27hExec(rp))
 		}
 		if err := r.Finish(); err != nil {
 			t.Fatal(err)
@@ -154,16 +200,29 @@ func TestVerif_C27_Health(t *testing.T) {
 			alphabet = append(alphabet, c27hEntry{"symlink", n, tg})
 		}
 	}
-	// depth 1 and 2 exhaustively; depth 3 for link,link,file and link,dir,file families (thorough: all)
+	// entries with one or two missing intermediate directories (n, n/m) below every place a link can
+	// be: the relative names of the alphabet and the last components of its two-component names
+	var deep []c27hEntry
+	for _, suffix := range []string{"/n/f", "/n/m/f"} {
+		for _, p := range []string{"a", "b", "c", "a/b", "a/c"} {
+			deep = append(deep, c27hEntry{"file", p + suffix, ""}, c27hEntry{"dir", p + suffix, ""},
+				c27hEntry{"hardlink", p + suffix, "."}, c27hEntry{"symlink", p + suffix, "."})
+		}
+	}
+	var cases []c27hCase
+	// depth 1 and 2 exhaustively; depth 3 for link,link,file and link,dir,file families (thorough: all);
+	// missing-parents entries after every single entry and after every depth-3 prefix pair
 	for _, gz := range []bool{false, true} {
 		for _, e1 := range alphabet {
-			c27hRun(r, c27hCase{gz, []c27hEntry{e1}})
-			for _, e2 := range alphabet {
-				if r.Expired() {
-					break
+			cases = append(cases, c27hCase{gz, []c27hEntry{e1}})
+			if !gz || r.Thorough() {
+				for _, d := range deep {
+					cases = append(cases, c27hCase{gz, []c27hEntry{e1, d}})
 				}
+			}
+			for _, e2 := range alphabet {
 				if !gz || r.Thorough() {
-					c27hRun(r, c27hCase{gz, []c27hEntry{e1, e2}})
+					cases = append(cases, c27hCase{gz, []c27hEntry{e1, e2}})
 				}
 				if e1.Type != "symlink" || gz {
 					continue
@@ -178,9 +237,46 @@ func TestVerif_C27_Health(t *testing.T) {
 					if !r.Thorough() && (strings.Contains(e3.Name, "..") || strings.HasPrefix(e3.Name, "/")) {
 						continue
 					}
-					c27hRun(r, c27hCase{gz, []c27hEntry{e1, e2, e3}})
+					cases = append(cases, c27hCase{gz, []c27hEntry{e1, e2, e3}})
+				}
+				if e2.Type == "file" {
+					continue // a file cannot redirect a later entry
+				}
+				for _, d := range deep {
+					cases = append(cases, c27hCase{gz, []c27hEntry{e1, e2, d}})
 				}
 			}
+		}
+	}
+	workers := runtime.GOMAXPROCS(0)
+	if workers > 16 {
+		workers = 16
+	}
+	const batch = 4096
+	for lo := 0; lo < len(cases) && !r.Expired(); lo += batch {
+		hi := lo + batch
+		if hi > len(cases) {
+			hi = len(cases)
+		}
+		res := make([]c27hRes, hi-lo)
+		var wg sync.WaitGroup
+		var next atomic.Int64
+		for w := 0; w < workers; w++ {
+			wg.Add(1)
+			go func() {
+				defer wg.Done()
+				for {
+					i := int(next.Add(1)) - 1
+					if i >= hi-lo {
+						return
+					}
+					res[i] = c27hExec(cases[lo+i])
+				}
+			}()
+		}
+		wg.Wait()
+		for i := range res {
+			c27hReport(r, cases[lo+i], res[i])
 		}
 	}
 	r.Sample(c27hCase{false, []c27hEntry{{"symlink", "a", "../../outside"}, {"file", "a/x", ""}}})
